@@ -228,7 +228,20 @@ def build_index(ix, n):
         return pd.RangeIndex(n)
     lv = []
     for l in ix["levels"]:
-        s = build_values(l["col"])
+        c = l["col"]
+        if c["dtype"] == "range":
+            lv.append(pd.RangeIndex(*c["range"], name=l["name"]))
+            continue
+        if c["dtype"] == "date_range":
+            lv.append(pd.date_range(dec(c["start"]), periods=n,
+                                    freq=c["freq"], tz=c.get("tz"),
+                                    name=l["name"]))
+            continue
+        if c["dtype"] == "timedelta_range":
+            lv.append(pd.timedelta_range(dec(c["start"]), periods=n,
+                                         freq=c["freq"], name=l["name"]))
+            continue
+        s = build_values(c)
         lv.append(pd.Index(s.array if hasattr(s, "array") else s,
                            name=l["name"]))
     if len(lv) == 1:
@@ -243,7 +256,7 @@ def build_obj(spec):
         s = build_values(spec["columns"][0]["col"])
         s.name = spec["columns"][0]["name"]
         s.index = build_index(spec["index"], n)
-        return s
+        return apply_derive(s, spec.get("derive"))
     data = [build_values(c["col"]) for c in spec["columns"]]
     names = [c["name"] for c in spec["columns"]]
     if not data:
@@ -252,7 +265,43 @@ def build_obj(spec):
         df = pd.concat([d.reset_index(drop=True) for d in data], axis=1)
         df.columns = names
     df.index = build_index(spec["index"], n)
-    return df
+    return apply_derive(df, spec.get("derive"))
+
+
+def apply_derive(obj, ops):
+    """The object handed to infer_schema is often not a freshly built one but
+    a slice / reordering / selection of one: apply such a sequence.  Ops that
+    pandas refuses for the data at hand (unsortable values) are skipped."""
+    for op in ops or []:
+        k = op[0]
+        if k == "slice":
+            obj = obj.iloc[slice(op[1], op[2], op[3])]
+        elif k == "take":
+            obj = obj.iloc[list(op[1])]
+        elif k == "reset_index":
+            obj = obj.reset_index(drop=True)
+        elif k == "sort_index":
+            try:
+                obj = obj.sort_index(ascending=op[1])
+            except Exception:
+                pass
+        elif k == "sort_values":
+            try:
+                if isinstance(obj, pd.Series):
+                    obj = obj.sort_values(ascending=op[2])
+                elif obj.shape[1]:
+                    obj = obj.sort_values(
+                        by=obj.columns[op[1] % obj.shape[1]], ascending=op[2])
+            except Exception:
+                pass
+        elif k == "column_to_frame":
+            if isinstance(obj, pd.Series):
+                obj = obj.to_frame()
+            elif obj.shape[1]:
+                obj = obj.iloc[:, op[1] % obj.shape[1]].to_frame()
+        else:
+            raise ValueError(op)
+    return obj
 
 
 # ---------------------------------------------------------------------------
@@ -358,6 +407,244 @@ def random_spec(rng):
     return {"kind": kind, "n": n,
             "index": _index(rng, n, rng.choice(INDEX_SHAPES)),
             "columns": cols}
+
+
+# ---------------------------------------------------------------------------
+# indexes that carry structure (RangeIndex, regular DatetimeIndex /
+# TimedeltaIndex with a freq) and objects derived from a built one
+
+RANGE_STARTS = [0, 0, 0, 1, 5, -4, 100, 2 ** 53 + 1, -(2 ** 62)]
+RANGE_STEPS = [1, 1, 2, 3, 7, -1, -1, -2, -3, -7]
+DR_STARTS = [T("2020-01-30"), T("2021-06-30 12:34:56"),
+             T("1999-12-31 23:59:59.5"), T("2000-02-29 00:00:00.000000001")]
+DR_FREQS = ["D", "-1D", "h", "-3h", "MS", "-1MS", "500ms", "-1500ms", "B",
+            "W", "-2W"]
+TDR_STARTS = [TD(0), TD(1, "h"), TD(-3, "D"), TD(1, "ns")]
+TDR_FREQS = ["h", "-30min", "D", "-1D", "250ms", "-1ns"]
+
+
+def range_level(rng, n, name, step=None, start=None):
+    """A RangeIndex of exactly n labels; the stop is not always aligned."""
+    step = rng.choice(RANGE_STEPS) if step is None else step
+    start = rng.choice(RANGE_STARTS) if start is None else start
+    if n:
+        slack = rng.randrange(abs(step))
+        stop = start + step * n - (slack if step > 0 else -slack)
+    else:
+        stop = start - step * rng.choice([0, 1, 2])
+    assert len(range(start, stop, step)) == n
+    return {"name": name, "col": {"cls": "range", "dtype": "range",
+                                  "null": None, "values": [],
+                                  "range": [start, stop, step]}}
+
+
+def freq_level(rng, n, name, kind=None, freq=None):
+    kind = kind or rng.choice(["date_range", "date_range", "timedelta_range"])
+    if kind == "date_range":
+        return {"name": name, "col": {
+            "cls": "date_range", "dtype": "date_range", "null": None,
+            "values": [], "start": enc(rng.choice(DR_STARTS)),
+            "freq": freq or rng.choice(DR_FREQS),
+            "tz": rng.choice([None, None, "UTC", "Europe/Berlin"])}}
+    return {"name": name, "col": {
+        "cls": "timedelta_range", "dtype": "timedelta_range", "null": None,
+        "values": [], "start": enc(rng.choice(TDR_STARTS)),
+        "freq": freq or rng.choice(TDR_FREQS)}}
+
+
+INDEX_NAMES = ["idx", None, "", 0, "x y"]
+
+
+def derive_ops(rng, n, kind, ncols):
+    """1-3 operations of the slice / reorder / select family on n rows."""
+    ops = []
+    for _ in range(rng.choice([1, 1, 1, 2, 2, 3])):
+        k = rng.choice(["slice", "slice", "slice", "slice", "take",
+                        "sort_index", "sort_values", "reset_index",
+                        "column_to_frame"])
+        if k == "slice":
+            step = rng.choice([None, 1, 2, 3, -1, -1, -1, -2, -3])
+            start = rng.choice([None, None, None, 0, 1, 2, n - 1, n - 2, -1])
+            stop = rng.choice([None, None, None, 0, 1, n - 1, n, -1])
+            if rng.random() < 0.5:
+                start = stop = None       # the whole frame, every k-th row
+            ops.append(["slice", start, stop, step])
+        elif k == "take":
+            if n == 0:
+                ops.append(["take", []])
+                continue
+            m = rng.choice(["perm", "subset-sorted", "subset-desc", "repeat"])
+            pos = list(range(n))
+            if m == "perm":
+                rng.shuffle(pos)
+            elif m == "repeat":
+                pos = [rng.randrange(n) for _ in range(rng.randrange(1, n + 2))]
+            else:
+                pos = sorted(rng.sample(pos, rng.randrange(1, n + 1)),
+                             reverse=(m == "subset-desc"))
+            ops.append(["take", pos])
+        elif k == "sort_index":
+            ops.append(["sort_index", rng.random() < 0.5])
+        elif k == "sort_values":
+            ops.append(["sort_values", rng.randrange(max(ncols, 1)),
+                        rng.random() < 0.5])
+        elif k == "reset_index":
+            if ops:                       # only meaningful after another op
+                ops.append(["reset_index"])
+            else:
+                ops.append(["slice", None, None, -1])
+        else:
+            ops.append(["column_to_frame", rng.randrange(max(ncols, 1))])
+            ncols = 1
+        # the number of rows the next op sees
+        if ops[-1][0] == "slice":
+            n = len(range(n)[slice(*ops[-1][1:])])
+        elif ops[-1][0] == "take":
+            n = len(ops[-1][1])
+    return ops
+
+
+def derived_spec(rng):
+    """A frame / series with a structured or default index, sliced, reordered
+    or narrowed before it is handed to infer_schema."""
+    kind = "series" if rng.random() < 0.2 else "frame"
+    n = rng.choice([0, 1, 2, 3, 4, 5, 6, 7, 8, 8])
+    r = rng.random()
+    if r < 0.40:
+        index = None
+    elif r < 0.62:
+        index = {"levels": [range_level(rng, n, rng.choice(INDEX_NAMES))]}
+    elif r < 0.76:
+        index = {"levels": [freq_level(rng, n, rng.choice(INDEX_NAMES))]}
+    elif r < 0.82:
+        # a structured level inside a MultiIndex (materialised by pandas)
+        other = _index(rng, n, "named")["levels"][0]
+        lv = [range_level(rng, n, "r") if rng.random() < 0.5
+              else freq_level(rng, n, "r"), dict(other, name="o")]
+        if rng.random() < 0.5:
+            lv.reverse()
+        index = {"levels": lv}
+    else:
+        index = _index(rng, n, rng.choice(
+            [s for s in INDEX_SHAPES if s != "range"]))
+    all_cls = sorted(CLASSES)
+    if kind == "series":
+        ncols = 1
+        names = [rng.choice([None, "s", 3, "x y"])]
+    else:
+        ncols = rng.choice([0, 1, 1, 2, 2, 3])
+        names = rng.sample(NAMES, ncols)
+    cols = []
+    for nm in names:
+        cls = rng.choice(COMMON if rng.random() < 0.6 else all_cls)
+        mode = rng.choice([None, None, None, "nulls"])
+        if mode == "nulls" and CLASSES[cls][2] is None:
+            mode = None
+        cols.append({"name": nm, "col": column(cls, rng, n, mode)})
+    structured = index is not None and index["levels"][0]["col"]["dtype"] in (
+        "range", "date_range", "timedelta_range") and len(index["levels"]) == 1
+    spec = {"kind": kind, "n": n, "index": index, "columns": cols}
+    if not (structured and rng.random() < 0.4):
+        spec["derive"] = derive_ops(rng, n, kind, ncols)
+    return spec
+
+
+def derived_catalogue():
+    """Deterministic sweep of the structured-index / derived-object family."""
+    import random
+    out = []
+
+    def base(rng, n, index, kind="frame"):
+        if kind == "series":
+            cols = [{"name": "s", "col": column("float64", rng, n)}]
+        else:
+            cols = [{"name": "x", "col": column("int64", rng, n)},
+                    {"name": "y", "col": column("float64", rng, n)},
+                    {"name": "s", "col": column("str", rng, n)}]
+        return {"kind": kind, "n": n, "index": index, "columns": cols}
+
+    for kind in ("frame", "series"):
+        for step in sorted(set(RANGE_STEPS)):
+            for start in (0, 5, -4):
+                for n in (0, 1, 6):
+                    for name in (None, "idx"):
+                        rng = random.Random(
+                            f"c14dcat|{kind}|{step}|{start}|{n}|{name}")
+                        ix = {"levels": [range_level(rng, n, name, step,
+                                                     start)]}
+                        out.append((f"{kind}:rangeindex:step={step}",
+                                    base(rng, n, ix, kind)))
+        for fk, freqs in (("date_range", DR_FREQS),
+                          ("timedelta_range", TDR_FREQS)):
+            for f in freqs:
+                for n in (0, 1, 5):
+                    rng = random.Random(f"c14dcat|{kind}|{fk}|{f}|{n}")
+                    ix = {"levels": [freq_level(rng, n, "t", fk, f)]}
+                    out.append((f"{kind}:{fk}:freq={f}", base(rng, n, ix,
+                                                              kind)))
+        ops = [[["slice", None, None, -1]], [["slice", None, None, -3]],
+               [["slice", 5, 1, -1]], [["slice", None, None, 2]],
+               [["slice", None, 3, None]], [["slice", 4, None, None]],
+               [["slice", None, 0, None]], [["slice", 1, None, 3]],
+               [["slice", None, None, -1], ["slice", None, None, -1]],
+               [["slice", None, None, -1], ["slice", None, None, 2]],
+               [["slice", None, None, -1], ["reset_index"]],
+               [["slice", None, None, -1], ["column_to_frame", 1]],
+               [["take", [3, 0, 6, 1]]], [["take", [1, 2, 5]]],
+               [["take", [5, 2, 1]]], [["take", [2, 2, 0]]],
+               [["sort_values", 1, False]], [["sort_values", 1, True]],
+               [["slice", None, None, -1], ["sort_index", True]],
+               [["sort_index", False]], [["column_to_frame", 0]]]
+        for j, o in enumerate(ops):
+            rng = random.Random(f"c14dcat|{kind}|ops|{j}")
+            out.append((f"{kind}:derived:" + "+".join(x[0] for x in o),
+                        dict(base(rng, 7, None, kind), derive=o)))
+        # the same reversals on every materialised index shape
+        for shape in sorted(set(INDEX_SHAPES) - {"range"}):
+            for o in ([["slice", None, None, -1]], [["slice", None, None, 2]],
+                      [["take", [2, 0]]], [["sort_index", False]]):
+                rng = random.Random(f"c14dcat|{kind}|{shape}|{o}")
+                out.append((f"{kind}:derived-index:{shape}:{o[0][0]}",
+                            dict(base(rng, 4, _index(rng, 4, shape), kind),
+                                 derive=o)))
+    return out
+
+
+def describe_index(ix):
+    """Structure flags of a real pandas Index (one level)."""
+    flags = set()
+    flags.add("index-type:" + type(ix).__name__)
+    if isinstance(ix, pd.RangeIndex):
+        flags.add("rangeindex")
+        if ix.step < 0:
+            flags.add("range-step<0")
+        if abs(ix.step) > 1:
+            flags.add("range-|step|>1")
+        if ix.start != 0:
+            flags.add("range-start!=0")
+        if len(ix) and (ix.stop - ix.start) % ix.step:
+            flags.add("range-stop-unaligned")
+    freq = getattr(ix, "freq", None)
+    if freq is not None:
+        flags.add("freq")
+        if getattr(freq, "n", 1) < 0:
+            flags.add("freq-negative")
+    if len(ix) > 1:
+        try:
+            if ix.is_monotonic_increasing:
+                flags.add("monotonic-increasing")
+            elif ix.is_monotonic_decreasing:
+                flags.add("monotonic-decreasing")
+            else:
+                flags.add("non-monotonic")
+        except Exception:
+            pass
+        try:
+            if ix.has_duplicates:
+                flags.add("has-duplicates")
+        except Exception:
+            pass
+    return sorted(flags)
 
 
 # ---------------------------------------------------------------------------
